@@ -85,7 +85,13 @@ Proof.
   (field_simplify_eq; [|assumption]); replace (s ^ 2) with (s * s) by ring; rewrite Hs; ring.
 Qed.
 
-(* lazy = eager exactly when |q| = 1 or the vector is zero *)
+(* the dask formula on the NORMALISED quaternion (what Quaternion.outer(lazy=True)
+   evaluates) is the eager result, for every non-zero quaternion *)
+Lemma dq_rot_qunit (q : Rq) (v : Rv) :
+  q <> zq ROps -> dq_rot ROps (qunit ROps q) v = qv_mul_builtin ROps q v.
+Proof. intros H. unfold qv_mul_builtin. apply dq_rot_unit, qunit_unit, H. Qed.
+
+(* the bare formula = eager exactly when |q| = 1 or the vector is zero *)
 Lemma dq_rot_eq_iff (q : Rq) (v : Rv) :
   q <> zq ROps ->
   (dq_rot ROps q v = qv_mul_builtin ROps q v <-> qnorm2 ROps q = 1 \/ v = zv ROps).
@@ -106,8 +112,9 @@ Proof.
       cbv [zv]; dunfold; tuple_eq; ring.
 Qed.
 
-(* a concrete non-unit quaternion on which lazy and eager differ:
-   q = 2 (norm 2, the identity rotation), v = x:  lazy (4,0,0), eager (1,0,0) *)
+(* a concrete non-unit quaternion on which the bare dask formula and the eager
+   result differ (why Quaternion.outer hands self.unit to _outer_dask):
+   q = 2 (norm 2, the identity rotation), v = x:  formula (4,0,0), eager (1,0,0) *)
 Lemma dq_rot_nonunit_differs :
   dq_rot ROps (2, 0, 0, 0) (1, 0, 0) <> qv_mul_builtin ROps (2, 0, 0, 0) (1, 0, 0).
 Proof.
@@ -177,44 +184,46 @@ Qed.
 Lemma chunked_lmax_eq k l : (0 < k)%nat -> chunked_lmax ROps k l = lmax0 ROps l.
 Proof. intros Hk. unfold chunked_lmax. rewrite lmax0_concat, NdIndex.concat_chunks by exact Hk. reflexivity. Qed.
 
-(* eager and lazy terms agree when neither the pair nor the symmetry element is improper *)
-Lemma sym_term_proper (m s : Rq) :
-  qnorm2 ROps m = 1 -> qnorm2 ROps s = 1 ->
-  sym_term_eager ROps (m, false) (s, false) = Rabs (qdot ROps m s).
+(* eager and lazy terms agree on unit quaternions, whatever the flags: both are 0
+   when exactly one of (pair, symmetry element) is improper, otherwise the clip
+   at 1 of the eager path is idle *)
+Lemma sym_term_eq (m s : rot (T:=R)) :
+  qnorm2 ROps (fst m) = 1 -> qnorm2 ROps (fst s) = 1 ->
+  sym_term_eager ROps m s = sym_term_lazy ROps m s.
 Proof.
-  intros Hm Hs. unfold sym_term_eager. cbn [fst snd xorb].
-  rewrite o_min_Rmin. change (o_abs ROps) with Rabs. change (o_ofZ ROps 1) with 1.
-  apply Rmin_right. apply qdot_unit_le1; assumption.
+  intros Hm Hs. unfold sym_term_eager, sym_term_lazy.
+  destruct (snd m), (snd s); cbn [xorb Bool.eqb]; try reflexivity;
+    rewrite o_min_Rmin; change (o_abs ROps) with Rabs; change (o_ofZ ROps 1) with 1;
+    apply Rmin_right; apply qdot_unit_le1; assumption.
 Qed.
 
-(* for a PROPER pair the eager and lazy symmetry-reduced dot products agree for
-   every list of unit symmetry elements, proper or not: the eager path zeroes
-   the improper elements, the lazy path filters them out *)
-Lemma sym_dot_proper (S : list (rot (T:=R))) (m : Rq) :
-  qnorm2 ROps m = 1 -> Forall (fun s => qnorm2 ROps (fst s) = 1) S ->
-  sym_dot_eager ROps S (m, false) = sym_dot_lazy ROps S m.
+(* hence the two symmetry-reduced dot products agree for EVERY pair (proper or
+   improper) and every list of unit symmetry elements (proper or improper) *)
+Lemma sym_dot_eq (S : list (rot (T:=R))) (m : rot (T:=R)) :
+  qnorm2 ROps (fst m) = 1 -> Forall (fun s => qnorm2 ROps (fst s) = 1) S ->
+  sym_dot_eager ROps S m = sym_dot_lazy ROps S m.
 Proof.
-  intros Hm HS. unfold sym_dot_eager, sym_dot_lazy, sym_dot_all.
+  intros Hm HS. unfold sym_dot_eager, sym_dot_lazy.
   induction HS as [|s S Hs _ IH]; [reflexivity|].
-  destruct s as [sq sf]. cbn [fst snd] in *. cbn [map filter snd negb].
-  rewrite lmax0_cons. destruct sf; cbn [negb].
-  - unfold sym_term_eager at 1. cbn [fst snd xorb]. change (o_ofZ ROps 0) with 0.
-    rewrite Rmax_right by apply lmax0_nonneg. exact IH.
-  - cbn [map fst]. rewrite lmax0_cons. rewrite IH. f_equal. apply sym_term_proper; assumption.
+  cbn [map]. rewrite !lmax0_cons, IH. f_equal. apply sym_term_eq; assumption.
 Qed.
 
-(* ... and differ as soon as the pair is improper: identity symmetry, improper `other` *)
-Lemma sym_dot_improper_pair_differs :
+(* the flags do matter (non-vacuity of the above): identity symmetry, a pair with
+   exactly one improper member -- both modes give dot product 0, i.e. angle pi,
+   where a proper pair gives 1, i.e. angle 0 *)
+Lemma sym_dot_improper_pair :
   sym_dot_eager ROps [((1, 0, 0, 0), false)] ((1, 0, 0, 0), true) = 0 /\
-  sym_dot_lazy ROps [((1, 0, 0, 0), false)] (1, 0, 0, 0) = 1.
+  sym_dot_lazy ROps [((1, 0, 0, 0), false)] ((1, 0, 0, 0), true) = 0 /\
+  sym_dot_lazy ROps [((1, 0, 0, 0), false)] ((1, 0, 0, 0), false) = 1.
 Proof.
-  unfold sym_dot_eager, sym_dot_lazy, sym_dot_all, sym_term_eager. cbn [map filter fst snd xorb negb].
-  rewrite !lmax0_cons. change (lmax0 ROps []) with 0. dunfold. split.
+  unfold sym_dot_eager, sym_dot_lazy, sym_term_eager, sym_term_lazy. cbn [map fst snd xorb Bool.eqb].
+  rewrite !lmax0_cons. change (lmax0 ROps []) with 0. dunfold. repeat split.
+  - apply Rmax_left; lra.
   - apply Rmax_left; lra.
   - replace (1 * 1 + 0 * 0 + 0 * 0 + 0 * 0) with 1 by ring. rewrite Rabs_R1. apply Rmax_left; lra.
 Qed.
 
-(* the angles then differ too: pi against 0 *)
+(* the corresponding angles: pi and 0 *)
 Lemma ang_0 : ang ROps 0 = PI.
 Proof.
   unfold ang. rsimpl. unfold Rltb. destruct (Rlt_dec 1 (2 * (0 * 0) - 1)); [lra|].
